@@ -447,6 +447,8 @@ func Run(a Matrix, args ...interface{}) (Matrix, Matrix, error) {
     inSitu.S = NullScalar(t)
   }
   if symmetric {
+    // tridiagonalize in the caller's work matrix (which is also the result)
+    inSitu.Householder.A = inSitu.H
     if computeU {
       inSitu.Householder.U = inSitu.U
     }
